@@ -15,6 +15,7 @@
 package server
 
 import (
+	"sort"
 	"strings"
 
 	"k8s.io/apimachinery/pkg/types"
@@ -71,8 +72,16 @@ func BuildNameTable(cfg Config) *dnsProto.NameTable {
 					// Iterate all ports to collect endpoints from every EndpointSlice.
 					// Dedup by address since pod IPs are unique (IPAM guarantee).
 					seen := sets.New[string]()
-					for _, endpoints := range cfg.Push.ServiceEndpoints(svc.Key()) {
-						for _, instance := range endpoints {
+					endpointsByPort := cfg.Push.ServiceEndpoints(svc.Key())
+					// Visit the ports in a fixed order, not in map order: the order of the addresses
+					// of a name must be the same in every generation.
+					ports := make([]int, 0, len(endpointsByPort))
+					for port := range endpointsByPort {
+						ports = append(ports, port)
+					}
+					sort.Ints(ports)
+					for _, port := range ports {
+						for _, instance := range endpointsByPort[port] {
 							isValidInstance := true
 							for _, addr := range instance.Addresses {
 								if !netutil.IsValidIPAddress(addr) {
